@@ -79,6 +79,18 @@ TEXTS = {
              "run with an independent reader. Tied by predicting batch ids and schema ids of real histories (interleaved signals, schema changes, dictionary overflow/reset, compression on/off).",
         design_ref="DESIGN.md 6/C12", note="Trusted: Coq kernel + vm_compute; no axioms; Go harness; arrow-go IPC (validated by the independent reader).",
         technique="Coq proof (invariant over histories of the stream-producer table) + framing differential + independent reader"),
+    "C01": dict(
+        text="Theorems for every input and every row order: attribute tables give each parent back exactly its attributes (group-delta parent ids mod 2^16/2^32, any grouping relation, the decoder's store), "
+             "delta-encoded id columns round-trip, counter-assigned ids never trip the delta builders, the equivalence checker is sound. Partial: span scalar columns and the whole-pipeline composition are tied, "
+             "not proved: the equivalence predicate (with the documented normalisations defined in Coq) is evaluated on the real input/output of every batch of generated histories and the model decoder is compared with the real one table by table.",
+        design_ref="DESIGN.md 6/C01", note="Trusted: Coq kernel + vm_compute; no axioms; Go harness; arrow-go/zstd/CBOR assumed (validated per run). Partial: scalar columns and the composition are tied by the equivalence predicate on real I/O.", technique="Coq proof (table codecs for any row order) + equivalence predicate evaluated in Coq on real I/O + table-level decoder differential"),
+    "C02": dict(
+        text="As C01 for the logs tables (shared id/attribute machinery); bodies and scalar columns tied by the equivalence predicate evaluated in Coq on real I/O of generated histories.",
+        design_ref="DESIGN.md 6/C02", note="Trusted: Coq kernel + vm_compute; no axioms; Go harness; arrow-go/zstd/CBOR assumed (validated per run). Partial: scalar columns and the composition are tied by the equivalence predicate on real I/O.", technique="Coq proof (table codecs) + equivalence predicate in Coq on real I/O + table-level decoder differential"),
+    "C03": dict(
+        text="Theorems: presence of optional values is preserved by the non-eliding wrapper (and was lost by the eliding one: the recorded, now fixed, finding), zero elision is harmless for value-only fields, parent-id/id "
+             "machinery as C01. Partial: the 13 metric tables are tied by the equivalence predicate (presence included) evaluated in Coq on real I/O of generated histories over all metric types and degenerate shapes.",
+        design_ref="DESIGN.md 6/C03", note="Trusted: Coq kernel + vm_compute; no axioms; Go harness; arrow-go/zstd/CBOR assumed (validated per run). Partial: scalar columns and the composition are tied by the equivalence predicate on real I/O.", technique="Coq proof (wrappers, table codecs) + equivalence predicate in Coq on real I/O"),
 }
 
 NOT_APPLICABLE = []
